@@ -16,7 +16,7 @@ from vfw.core import Sub, Violation
 PROP = "C03"
 RULE = ("a die (lattice, blockages / specialised / fixed regions, at least one refinable region), optionally refined with "
         "split_refinable_regions(r, n) or initial_grid(rows, cols), and a compatible netlist: fixed modules = the die's fixed "
-        "rectangles, 1-4 movable modules that are soft with disjoint rectangles, soft with centre and area only (a square), or "
+        "rectangles, 1-4 movable modules that are soft with disjoint rectangles, soft with centre and area only (a square; the area as one number or per region), or "
         "hard; modules overlap each other, blockages and fixed cells and may stick out of the die, but each overlaps some "
         "refinable cell; include_area_zero both ways.  Oracle: expected[cell][module] = sum of exact intersection areas / cell "
         "area from the source model (square side from 40-digit sqrt).  non-trivial = some module overlaps >= 2 cells with a "
@@ -209,6 +209,12 @@ def run_alloc(c):
                                     "listed-without-overlap")
             elif got is not None and abs(Fr(got) - exp) > tol:
                 raise Violation("cell %s, module %s: ratio %r, exact overlap fraction is %s" % (fl(e), name, got, float(exp)), "ratio")
+        if inc0:
+            # zero entries were requested: a fixed module is a module like any other, it covers nothing of a refinable cell
+            for name in fixed_names.values():
+                if a.alloc.get(name) is None or abs(a.alloc[name]) > tol:
+                    raise Violation("refinable cell %s, fixed module %s: entry %r although zero entries were requested (the movable modules "
+                                    "have theirs: %s)" % (fl(e), name, a.alloc.get(name), dict(a.alloc)), "zero-entry-missing")
         for name, got in a.alloc.items():
             if name.startswith("F") and name in fixed_names.values() and got > tol:
                 raise Violation("refinable cell %s is claimed by fixed module %s with ratio %r" % (fl(e), name, got), "fixed-on-refinable")
